@@ -240,12 +240,14 @@ func c13R4(h H) {
 	if fn := h.fn("R4", fcPkg, "(*streamReader).Read"); fn != nil {
 		se := map[edge]bool{}
 		for _, i := range ifs(fn) {
-			b, ok := i.Cond.(*ssa.BinOp)
-			if !ok || b.Op != token.EQL {
+			v, flip := stripNot(i.Cond)
+			b, ok := v.(*ssa.BinOp)
+			if !ok || (b.Op != token.EQL && b.Op != token.NEQ) {
 				continue
 			}
+			// the outcome on which the record IS a stderr record, whichever way the test is written
 			if c, okc := constInt(b.Y); okc && c == 7 && readsField(b.X, "Type") {
-				se[edge{i.Block(), 0}] = true
+				se[condEdge{i, (b.Op == token.EQL) != flip}.edge()] = true
 			}
 		}
 		okAll := len(se) > 0
